@@ -88,7 +88,10 @@ def main():
             print("patch does not apply:", out)
             sh(f"git -C /repo worktree remove --force {base}/repo; rm -rf {base}")
             return 2
-        sh(f"rsync -a --exclude .git --exclude work --exclude replays --exclude seeded --exclude neutral {ROOT}/ {base}/verif/")
+        # the COMMITTED machinery (edits in progress in /verif do not leak into the run), plus the
+        # harness build cache to save a cold build
+        sh(f"mkdir -p {base}/verif && git -C {ROOT} archive HEAD -- . ':!seeded' ':!neutral' | tar -x -C {base}/verif")
+        sh(f"rsync -a {ROOT}/harness/target {base}/verif/harness/ 2>/dev/null")
         try:
             for c in checks:
                 inner = (f"mount --bind {base}/repo /repo && mount --bind {base}/verif /verif && cd /verif && "
